@@ -150,7 +150,7 @@ structure InvR (s : St κ) : Prop where
   cb : ∀ t, s.cb t ≠ none → s.phase t = .created ∨ Live s t ∨ s.leaked t = true
   hctx : ∀ t, s.hctx t = true → Live s t ∨ s.leaked t = true
   entry : ∀ t, s.u.entry t = true → Live s t ∨ s.leaked t = true
-  result : ∀ t, s.phase t = .done → s.leaked t = false → s.result t = some (resultOf (s.outcome t))
+  result : ∀ t, s.phase t = .done → s.leaked t = false → s.result t ≠ none
 
 theorem invR_init : InvR (init : St κ) := by
   refine ⟨?_, ?_, ?_, ?_, ?_, ?_, ?_, ?_⟩
@@ -172,7 +172,7 @@ theorem invR_congr (s s' : St κ) (h : InvR s) (eu : s'.u.owner = s.u.owner) (en
   · intro t ht; rw [ep, hL, ek]; exact h5 t (ec t ht)
   · intro t; rw [eh, hL, ek]; exact h6 t
   · intro t; rw [ee, hL, ek]; exact h7 t
-  · intro t; rw [ep, ek, er, eoc]; exact h8 t
+  · intro t; rw [ep, ek, er]; exact h8 t
 
 theorem ensureEntry_other (cb : Task → Option (List (Cb × Args))) (t x : Task) (h : x ≠ t) :
     ensureEntry cb t x = cb x := by
@@ -199,7 +199,7 @@ theorem invR_update (s s' : St κ) (t : Task) (h : InvR s) (hm : MapsInv s'.u)
     (l4 : s'.cb t ≠ none → s'.phase t = .created ∨ Live s' t ∨ s'.leaked t = true)
     (l5 : s'.hctx t = true → Live s' t ∨ s'.leaked t = true)
     (l6 : s'.u.entry t = true → Live s' t ∨ s'.leaked t = true)
-    (l7 : s'.phase t = .done → s'.leaked t = false → s'.result t = some (resultOf (s'.outcome t))) :
+    (l7 : s'.phase t = .done → s'.leaked t = false → s'.result t ≠ none) :
     InvR s' := by
   obtain ⟨h1, h2, h3, h4, h5, h6, h7, h8⟩ := h
   have hL : ∀ x, x ≠ t → (Live s' x ↔ Live s x) := by
@@ -239,8 +239,8 @@ theorem invR_update (s s' : St κ) (t : Task) (h : InvR s) (hm : MapsInv s'.u)
   · intro x
     by_cases hx : x = t
     · subst hx; exact l7
-    · obtain ⟨e1, _, _, e4, e5, e6, _⟩ := fo x hx
-      rw [e1, e4, e5, e6]; exact h8 x
+    · obtain ⟨e1, _, _, e4, e5, _, _⟩ := fo x hx
+      rw [e1, e4, e5]; exact h8 x
 
 theorem invR_create (s : St κ) (t : Task) (wc pre : Bool) (h : InvR s) : InvR (createStep s t wc pre) := by
   unfold createStep
@@ -428,27 +428,64 @@ theorem invR_loopfields (s : St κ) (ran : List (Task × Cb × Args)) (idx : Tas
     (h : InvR s) : InvR { s with ran := ran, idx := idx, loopDone := ld, cbRaised := cr, inCb := ic } :=
   invR_congr s _ h rfl rfl rfl rfl rfl rfl rfl (fun _ hx => hx) rfl rfl rfl rfl
 
-theorem invR_cbBegin (s : St κ) (t : Task) (h : InvR s) : InvR (cbBeginStep s t) := by
+theorem invR_bailed (s : St κ) (b : Task → Option Res) (h : InvR s) : InvR { s with bailed := b } :=
+  invR_congr s _ h rfl rfl rfl rfl rfl rfl rfl (fun _ hx => hx) rfl rfl rfl rfl
+
+/-- the clean-up block -/
+theorem invR_finish (s : St κ) (t : Task) (r : Res) (h : InvR s) (hp : s.phase t = .finalizing) :
+    InvR (finish s t r) := by
+  unfold finish
+  have hl : s.u.live t = true := (h.live t).2 (Or.inr hp)
+  have hex := C13.exit_eq s.u t h.maps hl
+  refine invR_update s _ t h ?_ ?_ ?_ ?_ ?_ ?_ ?_ ?_ ?_
+  · exact mapsInv_exit s.u t h.maps
+  · intro x hx
+    refine ⟨upd_other _ _ _ _ hx, ?_, upd_other _ _ _ _ hx, rfl, upd_other _ _ _ _ hx, rfl, ?_, ?_, ?_, ?_⟩
+    · intro hc; simpa [upd_other _ _ _ _ hx] using hc
+    · simp only [hex, upd_other _ _ _ _ hx]
+    · simp only [exit_started]
+    · simp only [hex, upd_other _ _ _ _ hx]
+    · simp only [hex, upd_other _ _ _ _ hx]
+  · constructor
+    · intro hl'; simp only [hex, upd_same] at hl'; cases hl'
+    · intro hl'; unfold Live at hl'; simp at hl'
+  · intro hh; simp at hh
+  · intro ho; simp only [hex, upd_same] at ho; cases ho
+  · intro hc; simp at hc
+  · intro hh; simp at hh
+  · intro he; simp only [hex, upd_same] at he; cases he
+  · intro _ _; simp
+
+theorem invR_bail (cfg : Cfg) (s : St κ) (t : Task) (r : Res) (h : InvR s) (hp : s.phase t = .finalizing) :
+    InvR (bail cfg s t r) := by
+  unfold bail
+  split
+  · exact invR_finish _ t r (invR_bailed s _ h) hp
+  · exact invR_abort _ t r (invR_bailed s _ h)
+
+theorem invR_cbBegin (cfg : Cfg) (s : St κ) (t : Task) (h : InvR s) : InvR (cbBeginStep cfg s t) := by
   unfold cbBeginStep
   split
   · exact h
-  · split
+  · rename_i hp
+    have hp : s.phase t = .finalizing := Classical.not_not.1 hp
+    split
     · exact h
     · split
       · exact h
       · split
-        · exact h
+        · exact invR_bail cfg s t _ h hp
         · split
-          · exact invR_abort s t _ h
-          · split
-            · exact h
-            · exact invR_loopfields s _ _ s.loopDone s.cbRaised _ h
+          · exact h
+          · exact invR_loopfields s _ _ s.loopDone s.cbRaised _ h
 
 theorem invR_cbEnd (cfg : Cfg) (s : St κ) (t : Task) (r : CbRes) (h : InvR s) : InvR (cbEndStep cfg s t r) := by
   unfold cbEndStep
   split
   · exact h
-  · split
+  · rename_i hp
+    have hp : s.phase t = .finalizing := Classical.not_not.1 hp
+    split
     · exact h
     · cases r with
       | ok => exact invR_loopfields s s.ran s.idx s.loopDone s.cbRaised _ h
@@ -458,9 +495,9 @@ theorem invR_cbEnd (cfg : Cfg) (s : St κ) (t : Task) (r : CbRes) (h : InvR s) :
         · exact invR_loopfields s s.ran s.idx s.loopDone _ _ h
         · exact invR_loopfields s s.ran s.idx _ _ _ h
       | cancelled =>
-        exact invR_abort _ t _ (invR_loopfields s s.ran s.idx s.loopDone s.cbRaised _ h)
+        exact invR_bail cfg _ t _ (invR_loopfields s s.ran s.idx s.loopDone s.cbRaised _ h) hp
 
-theorem invR_cleanup (s : St κ) (t : Task) (h : InvR s) : InvR (cleanupStep s t) := by
+theorem invR_cleanup (cfg : Cfg) (s : St κ) (t : Task) (h : InvR s) : InvR (cleanupStep cfg s t) := by
   unfold cleanupStep
   split
   · exact h
@@ -471,27 +508,8 @@ theorem invR_cleanup (s : St κ) (t : Task) (h : InvR s) : InvR (cleanupStep s t
     · split
       · exact h
       · split
-        · exact invR_abort s t _ h
-        · have hl : s.u.live t = true := (h.live t).2 (Or.inr hp)
-          have hex := C13.exit_eq s.u t h.maps hl
-          refine invR_update s _ t h ?_ ?_ ?_ ?_ ?_ ?_ ?_ ?_ ?_
-          · exact mapsInv_exit s.u t h.maps
-          · intro x hx
-            refine ⟨upd_other _ _ _ _ hx, ?_, upd_other _ _ _ _ hx, rfl, upd_other _ _ _ _ hx, rfl, ?_, ?_, ?_, ?_⟩
-            · intro hc; simpa [upd_other _ _ _ _ hx] using hc
-            · simp only [hex, upd_other _ _ _ _ hx]
-            · simp only [exit_started]
-            · simp only [hex, upd_other _ _ _ _ hx]
-            · simp only [hex, upd_other _ _ _ _ hx]
-          · constructor
-            · intro hl'; simp only [hex, upd_same] at hl'; cases hl'
-            · intro hl'; unfold Live at hl'; simp at hl' 
-          · intro hh; simp at hh
-          · intro ho; simp only [hex, upd_same] at ho; cases ho
-          · intro hc; simp at hc
-          · intro hh; simp at hh
-          · intro he; simp only [hex, upd_same] at he; cases he
-          · intro _ _; simp
+        · exact invR_bail cfg s t _ h hp
+        · exact invR_finish s t _ h hp
 
 theorem invR_step (cfg : Cfg) (s : St κ) (op : Op κ) (h : InvR s) : InvR (step cfg s op) := by
   cases op with
@@ -504,9 +522,9 @@ theorem invR_step (cfg : Cfg) (s : St κ) (op : Op κ) (h : InvR s) : InvR (step
   | unique t k km => exact invR_unique s t k km h
   | reap => exact invR_reap s h
   | endBody t oc => exact invR_endBody s t oc h
-  | cbBegin t => exact invR_cbBegin s t h
+  | cbBegin t => exact invR_cbBegin cfg s t h
   | cbEnd t r => exact invR_cbEnd cfg s t r h
-  | cleanup t => exact invR_cleanup s t h
+  | cleanup t => exact invR_cleanup cfg s t h
 
 theorem invR_foldl (cfg : Cfg) (ops : List (Op κ)) : ∀ s : St κ, InvR s → InvR (ops.foldl (step cfg) s) := by
   induction ops with
@@ -569,10 +587,10 @@ structure InvC (cfg : Cfg) (s : St κ) : Prop where
   pre : ∀ t, (s.phase t = .none ∨ s.phase t = .created ∨ s.phase t = .running) → ranOf s t = []
   fin : ∀ t, s.phase t = .finalizing → s.touched t = false →
     cbList s t = s.atEnd t ∧ s.iterSize t = (s.atEnd t).length
-  ran : ∀ t, (s.phase t = .finalizing ∨ s.phase t = .done) → s.touched t = false →
+  ran : ∀ t, (s.phase t = .finalizing ∨ s.phase t = .done) → (cfg.snapshotIter = true ∨ s.touched t = false) →
     ranOf s t = (s.atEnd t).take (s.idx t) ∧ s.idx t ≤ (s.atEnd t).length
   loop : ∀ t, s.loopDone t = true → cfg.cbContinues = false ∧ s.cbRaised t = true
-  full : ∀ t, s.phase t = .done → s.touched t = false → s.leaked t = false →
+  full : ∀ t, s.phase t = .done → (cfg.snapshotIter = true ∨ s.touched t = false) → s.bailed t = none →
     (cfg.cbContinues = true ∨ s.cbRaised t = false) → s.idx t = (s.atEnd t).length
 
 theorem invC_init (cfg : Cfg) : InvC cfg (init : St κ) := by
@@ -582,17 +600,17 @@ theorem invC_init (cfg : Cfg) : InvC cfg (init : St κ) := by
 theorem invC_update (cfg : Cfg) (s s' : St κ) (t : Task) (h : InvC cfg s)
     (fo : ∀ x, x ≠ t → s'.cb x = s.cb x ∧ s'.atEnd x = s.atEnd x ∧ s'.phase x = s.phase x ∧
       s'.touched x = s.touched x ∧ s'.idx x = s.idx x ∧ s'.iterSize x = s.iterSize x ∧
-      s'.loopDone x = s.loopDone x ∧ s'.cbRaised x = s.cbRaised x ∧ s'.leaked x = s.leaked x ∧
+      s'.loopDone x = s.loopDone x ∧ s'.cbRaised x = s.cbRaised x ∧ s'.bailed x = s.bailed x ∧
       ranOf s' x = ranOf s x)
     (l1 : ∀ l, s'.cb t = some l → (l.map (·.1)).Nodup)
     (l2 : ((s'.atEnd t).map (·.1)).Nodup)
     (l3 : (s'.phase t = .none ∨ s'.phase t = .created ∨ s'.phase t = .running) → ranOf s' t = [])
     (l4 : s'.phase t = .finalizing → s'.touched t = false →
       cbList s' t = s'.atEnd t ∧ s'.iterSize t = (s'.atEnd t).length)
-    (l5 : (s'.phase t = .finalizing ∨ s'.phase t = .done) → s'.touched t = false →
+    (l5 : (s'.phase t = .finalizing ∨ s'.phase t = .done) → (cfg.snapshotIter = true ∨ s'.touched t = false) →
       ranOf s' t = (s'.atEnd t).take (s'.idx t) ∧ s'.idx t ≤ (s'.atEnd t).length)
     (l6 : s'.loopDone t = true → cfg.cbContinues = false ∧ s'.cbRaised t = true)
-    (l7 : s'.phase t = .done → s'.touched t = false → s'.leaked t = false →
+    (l7 : s'.phase t = .done → (cfg.snapshotIter = true ∨ s'.touched t = false) → s'.bailed t = none →
       (cfg.cbContinues = true ∨ s'.cbRaised t = false) → s'.idx t = (s'.atEnd t).length) :
     InvC cfg s' := by
   obtain ⟨h1, h2, h3, h4, h5, h6, h7⟩ := h
@@ -635,7 +653,7 @@ theorem invC_update (cfg : Cfg) (s s' : St κ) (t : Task) (h : InvC cfg s)
 /-- a step that leaves every field read by `InvC` unchanged -/
 theorem invC_congr (cfg : Cfg) (s s' : St κ) (h : InvC cfg s) (e1 : s'.cb = s.cb) (e2 : s'.atEnd = s.atEnd)
     (e3 : s'.phase = s.phase) (e4 : s'.touched = s.touched) (e5 : s'.idx = s.idx) (e6 : s'.iterSize = s.iterSize)
-    (e7 : s'.loopDone = s.loopDone) (e8 : s'.cbRaised = s.cbRaised) (e9 : s'.leaked = s.leaked)
+    (e7 : s'.loopDone = s.loopDone) (e8 : s'.cbRaised = s.cbRaised) (e9 : s'.bailed = s.bailed)
     (e10 : s'.ran = s.ran) : InvC cfg s' := by
   have hr : ∀ x, ranOf s' x = ranOf s x := by intro x; unfold ranOf; rw [e10]
   have hc : ∀ x, cbList s' x = cbList s x := by intro x; unfold cbList; rw [e1]
@@ -733,12 +751,10 @@ theorem invC_setcb (cfg : Cfg) (s : St κ) (t : Task) (l' : List (Cb × Args)) (
   · intro hp ht
     exact absurd hp (noteTouch_same s t ht).1
   · intro hp ht
-    obtain ⟨a, b⟩ := noteTouch_same s t ht
-    exact h.ran t hp b
+    exact h.ran t hp (ht.imp id fun e => (noteTouch_same s t e).2)
   · exact h.loop t
   · intro hp ht
-    obtain ⟨a, b⟩ := noteTouch_same s t ht
-    exact h.full t hp b
+    exact h.full t hp (ht.imp id fun e => (noteTouch_same s t e).2)
 
 theorem invC_errs (cfg : Cfg) (s : St κ) (n : Nat) (h : InvC cfg s) : InvC cfg { s with errs := n } :=
   invC_congr cfg s _ h rfl rfl rfl rfl rfl rfl rfl rfl rfl rfl
@@ -806,24 +822,73 @@ theorem invC_endBody (cfg : Cfg) (s : St κ) (t : Task) (oc : Outcome) (h : InvC
     · exact h.loop t
     · intro hh; simp at hh
 
+theorem invC_bailed (cfg : Cfg) (s : St κ) (t : Task) (r : Res) (h : InvC cfg s) (hp : s.phase t = .finalizing) :
+    InvC cfg { s with bailed := upd s.bailed t (some r) } := by
+  refine invC_update cfg s _ t h ?_ ?_ ?_ ?_ ?_ ?_ ?_ ?_
+  · intro x hx
+    exact ⟨rfl, rfl, rfl, rfl, rfl, rfl, rfl, rfl, upd_other _ _ _ _ hx, rfl⟩
+  · exact h.keys t
+  · exact h.atEndKeys t
+  · exact h.pre t
+  · exact h.fin t
+  · exact h.ran t
+  · exact h.loop t
+  · intro hh; rw [hp] at hh; cases hh
+
 theorem invC_abort (cfg : Cfg) (s : St κ) (t : Task) (r : Res) (h : InvC cfg s)
-    (hp : s.phase t = .finalizing) : InvC cfg (abort s t r) := by
+    (hp : s.phase t = .finalizing) (hb : s.bailed t ≠ none) : InvC cfg (abort s t r) := by
   unfold abort
   refine invC_update cfg s _ t h ?_ ?_ ?_ ?_ ?_ ?_ ?_ ?_
   · intro x hx
-    exact ⟨rfl, rfl, upd_other _ _ _ _ hx, rfl, rfl, rfl, rfl, rfl, upd_other _ _ _ _ hx, rfl⟩
+    exact ⟨rfl, rfl, upd_other _ _ _ _ hx, rfl, rfl, rfl, rfl, rfl, rfl, rfl⟩
   · exact h.keys t
   · exact h.atEndKeys t
   · intro hh; simp at hh
   · intro hh; simp at hh
   · intro _ ht; exact h.ran t (Or.inl hp) ht
   · exact h.loop t
-  · intro _ _ hk; simp at hk
+  · intro _ _ hk; exact absurd hk hb
+
+/-- the clean-up block; `hfull` is the "all callbacks ran" claim of the state before it -/
+theorem invC_finish (cfg : Cfg) (s : St κ) (t : Task) (r : Res) (h : InvC cfg s) (hp : s.phase t = .finalizing)
+    (hfull : (cfg.snapshotIter = true ∨ s.touched t = false) → s.bailed t = none →
+      (cfg.cbContinues = true ∨ s.cbRaised t = false) → s.idx t = (s.atEnd t).length) :
+    InvC cfg (finish s t r) := by
+  unfold finish
+  refine invC_update cfg s _ t h ?_ ?_ ?_ ?_ ?_ ?_ ?_ ?_
+  · intro x hx
+    exact ⟨upd_other _ _ _ _ hx, rfl, upd_other _ _ _ _ hx, rfl, rfl, rfl, rfl, rfl, rfl, rfl⟩
+  · intro l hl; simp at hl
+  · exact h.atEndKeys t
+  · intro hh; simp at hh
+  · intro hh; simp at hh
+  · intro _ ht; exact h.ran t (Or.inl hp) ht
+  · exact h.loop t
+  · intro _ ht hb hcr; exact hfull ht hb hcr
+
+theorem invC_bail (cfg : Cfg) (s : St κ) (t : Task) (r : Res) (h : InvC cfg s) (hp : s.phase t = .finalizing) :
+    InvC cfg (bail cfg s t r) := by
+  unfold bail
+  have h1 := invC_bailed cfg s t r h hp
+  split
+  · exact invC_finish cfg _ t r h1 hp (fun _ hb _ => by simp at hb)
+  · exact invC_abort cfg _ t r h1 hp (by simp)
 
 theorem invC_inCb (cfg : Cfg) (s : St κ) (ic : Task → Bool) (h : InvC cfg s) : InvC cfg { s with inCb := ic } :=
   invC_congr cfg s _ h rfl rfl rfl rfl rfl rfl rfl rfl rfl rfl
 
-theorem invC_cbBegin (cfg : Cfg) (s : St κ) (t : Task) (h : InvC cfg s) : InvC cfg (cbBeginStep s t) := by
+/-- what the loop iterates over is the callback list of the end of the body -/
+theorem iterList_atEnd (cfg : Cfg) (s : St κ) (t : Task) (h : InvC cfg s) (hp : s.phase t = .finalizing)
+    (ht : cfg.snapshotIter = true ∨ s.touched t = false) : iterList cfg s t = s.atEnd t := by
+  unfold iterList
+  cases hs : cfg.snapshotIter with
+  | true => simp
+  | false =>
+    rcases ht with e | e
+    · rw [hs] at e; cases e
+    · simp only [Bool.false_eq_true, if_false]; exact (h.fin t hp e).1
+
+theorem invC_cbBegin (cfg : Cfg) (s : St κ) (t : Task) (h : InvC cfg s) : InvC cfg (cbBeginStep cfg s t) := by
   unfold cbBeginStep
   split
   · exact h
@@ -833,39 +898,36 @@ theorem invC_cbBegin (cfg : Cfg) (s : St κ) (t : Task) (h : InvC cfg s) : InvC 
     · exact h
     · split
       · exact h
-      · rename_i l hcb
-        split
-        · exact h
+      · split
+        · exact invC_bail cfg s t _ h hp
         · split
-          · exact invC_abort cfg s t _ h hp
-          · split
-            · exact h
-            · rename_i c a hget
-              have hlt : s.idx t < l.length := by
-                cases hlt : decide (s.idx t < l.length) with
+          · exact h
+          · rename_i c a hget
+            refine invC_update cfg s _ t h ?_ ?_ ?_ ?_ ?_ ?_ ?_ ?_
+            · intro x hx
+              refine ⟨rfl, rfl, rfl, rfl, upd_other _ _ _ _ hx, rfl, rfl, rfl, rfl, ?_⟩
+              rw [ranOf_append s t x c a _ rfl]; simp [hx]
+            · exact h.keys t
+            · exact h.atEndKeys t
+            · intro hh; rw [hp] at hh; simp at hh
+            · intro _ ht
+              exact h.fin t hp ht
+            · intro _ ht
+              obtain ⟨r1, _⟩ := h.ran t (Or.inl hp) ht
+              have hl := iterList_atEnd cfg s t h hp ht
+              rw [hl] at hget
+              have hlt : s.idx t < (s.atEnd t).length := by
+                cases hlt : decide (s.idx t < (s.atEnd t).length) with
                 | true => simpa using hlt
                 | false =>
-                  have : l.length ≤ s.idx t := by simpa using hlt
+                  have : (s.atEnd t).length ≤ s.idx t := by simpa using hlt
                   rw [List.getElem?_eq_none this] at hget; cases hget
-              refine invC_update cfg s _ t h ?_ ?_ ?_ ?_ ?_ ?_ ?_ ?_
-              · intro x hx
-                refine ⟨rfl, rfl, rfl, rfl, upd_other _ _ _ _ hx, rfl, rfl, rfl, rfl, ?_⟩
-                rw [ranOf_append s t x c a _ rfl]; simp [hx]
-              · exact h.keys t
-              · exact h.atEndKeys t
-              · intro hh; rw [hp] at hh; simp at hh
-              · intro _ ht
-                exact h.fin t hp ht
-              · intro _ ht
-                obtain ⟨f1, _⟩ := h.fin t hp ht
-                obtain ⟨r1, _⟩ := h.ran t (Or.inl hp) ht
-                have hl : l = s.atEnd t := by rw [← f1]; unfold cbList; rw [hcb]; rfl
-                rw [ranOf_append s t t c a _ rfl]
-                simp only [if_true, upd_same]
-                rw [r1, ← hl, List.take_add_one, hget]
-                exact ⟨rfl, hlt⟩
-              · exact h.loop t
-              · intro hh; rw [hp] at hh; cases hh
+              rw [ranOf_append s t t c a _ rfl]
+              simp only [if_true, upd_same]
+              rw [r1, List.take_add_one, hget]
+              exact ⟨rfl, hlt⟩
+            · exact h.loop t
+            · intro hh; rw [hp] at hh; cases hh
 
 /-- only the loop flags of `t` change -/
 theorem invC_flags (cfg : Cfg) (s : St κ) (t : Task) (ld cr ic : Task → Bool) (h : InvC cfg s)
@@ -911,9 +973,9 @@ theorem invC_cbEnd (cfg : Cfg) (s : St κ) (t : Task) (r : CbRes) (h : InvC cfg 
           exact invC_flags cfg s t (upd s.loopDone t true) (upd s.cbRaised t true) _ h hp
             (fun _ => ⟨not_true_false hcc, by simp⟩)
             (fun x hx => ⟨upd_other _ _ _ _ hx, upd_other _ _ _ _ hx⟩)
-      | cancelled => exact invC_abort cfg _ t _ (invC_inCb cfg s _ h) hp
+      | cancelled => exact invC_bail cfg _ t _ (invC_inCb cfg s _ h) hp
 
-theorem invC_cleanup (cfg : Cfg) (s : St κ) (t : Task) (h : InvC cfg s) : InvC cfg (cleanupStep s t) := by
+theorem invC_cleanup (cfg : Cfg) (s : St κ) (t : Task) (h : InvC cfg s) : InvC cfg (cleanupStep cfg s t) := by
   unfold cleanupStep
   split
   · exact h
@@ -925,41 +987,23 @@ theorem invC_cleanup (cfg : Cfg) (s : St κ) (t : Task) (h : InvC cfg s) : InvC 
       · exact h
       · rename_i hlp
         split
-        · exact invC_abort cfg s t _ h hp
-        · refine invC_update cfg s _ t h ?_ ?_ ?_ ?_ ?_ ?_ ?_ ?_
-          · intro x hx
-            exact ⟨upd_other _ _ _ _ hx, rfl, upd_other _ _ _ _ hx, rfl, rfl, rfl, rfl, rfl, rfl, rfl⟩
-          · intro l hl; simp at hl
-          · exact h.atEndKeys t
-          · intro hh; simp at hh
-          · intro hh; simp at hh
-          · intro _ ht; exact h.ran t (Or.inl hp) ht
-          · exact h.loop t
-          · intro _ ht _ hcr
-            obtain ⟨f1, _⟩ := h.fin t hp ht
-            obtain ⟨_, r2⟩ := h.ran t (Or.inl hp) ht
-            show s.idx t = (s.atEnd t).length
-            unfold loopPending at hlp
-            cases hcb : s.cb t with
-            | none =>
-              have : s.atEnd t = [] := by rw [← f1]; unfold cbList; rw [hcb]; rfl
-              rw [this] at r2 ⊢
-              simpa using r2
-            | some l =>
-              have hl : l = s.atEnd t := by rw [← f1]; unfold cbList; rw [hcb]; rfl
-              rw [hcb] at hlp
-              simp only [] at hlp
-              cases hld : s.loopDone t with
-              | true =>
-                obtain ⟨c1, c2⟩ := h.loop t hld
-                rcases hcr with e | e
-                · rw [c1] at e; cases e
-                · rw [c2] at e; cases e
-              | false =>
-                rw [hld] at hlp
-                have : ¬ s.idx t < l.length := by simpa using hlp
-                rw [hl] at this
-                omega
+        · exact invC_bail cfg s t _ h hp
+        · apply invC_finish cfg s t _ h hp
+          intro ht _ hcr
+          obtain ⟨_, r2⟩ := h.ran t (Or.inl hp) ht
+          have hl := iterList_atEnd cfg s t h hp ht
+          unfold loopPending at hlp
+          rw [hl] at hlp
+          cases hld : s.loopDone t with
+          | true =>
+            obtain ⟨c1, c2⟩ := h.loop t hld
+            rcases hcr with e | e
+            · rw [c1] at e; cases e
+            · rw [c2] at e; cases e
+          | false =>
+            rw [hld] at hlp
+            have : ¬ s.idx t < (s.atEnd t).length := by simpa using hlp
+            omega
 
 theorem invC_step (cfg : Cfg) (s : St κ) (op : Op κ) (h : InvC cfg s) : InvC cfg (step cfg s op) := by
   cases op with
@@ -990,103 +1034,202 @@ theorem invC_foldl (cfg : Cfg) (ops : List (Op κ)) :
 
 theorem invC_run (cfg : Cfg) (ops : List (Op κ)) : InvC cfg (run cfg ops) := invC_foldl cfg ops _ (invC_init cfg)
 
-/-! ### why a `finally` can be left without the clean-up -/
+/-! ### results, and why a `finally` can be left early -/
 
-/-- a leaked task is finished, and either its callback dict was modified while its `finally` ran or a cancellation was
-delivered inside one of its callbacks -/
-def InvL (s : St κ) : Prop :=
-  ∀ t, s.leaked t = true → s.phase t = .done ∧ (s.touched t = true ∨ s.result t = some .cancelled)
+/-- * a leaked task (clean-up skipped) exists only in the pre-fix shape, is finished, and left its callback loop early;
+* a task that left its callback loop early is finished with that exception: a cancellation delivered inside a
+  callback, or – live-dict iteration only – the `RuntimeError` of a dict resized while its `finally` ran;
+* every other finished task finished with its body's outcome. -/
+structure InvL (cfg : Cfg) (s : St κ) : Prop where
+  leak : ∀ t, s.leaked t = true → cfg.cleanupAlways = false ∧ s.phase t = .done ∧ s.bailed t ≠ none
+  bail : ∀ t r, s.bailed t = some r → s.phase t = .done ∧ s.result t = some r ∧
+    (r = .cancelled ∨ (r = .error ∧ s.touched t = true ∧ cfg.snapshotIter = false))
+  res : ∀ t, s.phase t = .done → s.bailed t = none → s.result t = some (resultOf (s.outcome t))
 
-theorem invL_update (s s' : St κ) (t : Task) (h : InvL s)
+theorem invL_update (cfg : Cfg) (s s' : St κ) (t : Task) (h : InvL cfg s)
     (fo : ∀ x, x ≠ t → s'.leaked x = s.leaked x ∧ s'.phase x = s.phase x ∧
-      (s.touched x = true → s'.touched x = true) ∧ s'.result x = s.result x)
-    (l : s'.leaked t = true → s'.phase t = .done ∧ (s'.touched t = true ∨ s'.result t = some .cancelled)) :
-    InvL s' := by
-  intro x hx
-  by_cases e : x = t
-  · subst e; exact l hx
-  · obtain ⟨e1, e2, e3, e4⟩ := fo x e
-    rw [e1] at hx
-    obtain ⟨a, b⟩ := h x hx
-    rw [e2, e4]
-    exact ⟨a, b.imp e3 id⟩
+      (s.touched x = true → s'.touched x = true) ∧ s'.result x = s.result x ∧ s'.bailed x = s.bailed x ∧
+      s'.outcome x = s.outcome x)
+    (l1 : s'.leaked t = true → cfg.cleanupAlways = false ∧ s'.phase t = .done ∧ s'.bailed t ≠ none)
+    (l2 : ∀ r, s'.bailed t = some r → s'.phase t = .done ∧ s'.result t = some r ∧
+      (r = .cancelled ∨ (r = .error ∧ s'.touched t = true ∧ cfg.snapshotIter = false)))
+    (l3 : s'.phase t = .done → s'.bailed t = none → s'.result t = some (resultOf (s'.outcome t))) :
+    InvL cfg s' := by
+  obtain ⟨h1, h2, h3⟩ := h
+  refine ⟨?_, ?_, ?_⟩
+  · intro x
+    by_cases e : x = t
+    · subst e; exact l1
+    · obtain ⟨e1, e2, _, _, e5, _⟩ := fo x e
+      rw [e1, e2, e5]; exact h1 x
+  · intro x r
+    by_cases e : x = t
+    · subst e; exact l2 r
+    · obtain ⟨_, e2, e3, e4, e5, _⟩ := fo x e
+      rw [e2, e4, e5]
+      intro hb
+      obtain ⟨a, b, c⟩ := h2 x r hb
+      exact ⟨a, b, c.imp id fun ⟨c1, c2, c3⟩ => ⟨c1, e3 c2, c3⟩⟩
+  · intro x
+    by_cases e : x = t
+    · subst e; exact l3
+    · obtain ⟨_, e2, _, e4, e5, e6⟩ := fo x e
+      rw [e2, e4, e5, e6]; exact h3 x
 
-theorem invL_congr (s s' : St κ) (h : InvL s) (e1 : s'.leaked = s.leaked) (e2 : s'.phase = s.phase)
-    (e3 : ∀ x, s.touched x = true → s'.touched x = true) (e4 : s'.result = s.result) : InvL s' := by
-  intro x hx
-  rw [e1] at hx
-  obtain ⟨a, b⟩ := h x hx
-  rw [e2, e4]
-  exact ⟨a, b.imp (e3 x) id⟩
+theorem invL_congr (cfg : Cfg) (s s' : St κ) (h : InvL cfg s) (e1 : s'.leaked = s.leaked) (e2 : s'.phase = s.phase)
+    (e3 : ∀ x, s.touched x = true → s'.touched x = true) (e4 : s'.result = s.result)
+    (e5 : s'.bailed = s.bailed) (e6 : s'.outcome = s.outcome) : InvL cfg s' := by
+  obtain ⟨h1, h2, h3⟩ := h
+  refine ⟨?_, ?_, ?_⟩
+  · intro x; rw [e1, e2, e5]; exact h1 x
+  · intro x r; rw [e2, e4, e5]
+    intro hb
+    obtain ⟨a, b, c⟩ := h2 x r hb
+    exact ⟨a, b, c.imp id fun ⟨c1, c2, c3⟩ => ⟨c1, e3 x c2, c3⟩⟩
+  · intro x; rw [e2, e4, e5, e6]; exact h3 x
 
 theorem noteTouch_mono (s : St κ) (t x : Task) (h : s.touched x = true) : noteTouch s t x = true := by
   unfold noteTouch; split
   · simp only [upd_apply]; split <;> simp [h]
   · exact h
 
-theorem invL_abort_touched (s : St κ) (t : Task) (r : Res) (h : InvL s)
-    (ht : s.touched t = true ∨ r = .cancelled) : InvL (abort s t r) := by
-  unfold abort
-  refine invL_update s _ t h ?_ ?_
-  · intro x hx
-    exact ⟨upd_other _ _ _ _ hx, upd_other _ _ _ _ hx, fun e => e, upd_other _ _ _ _ hx⟩
-  · intro _
-    refine ⟨by simp, ?_⟩
-    rcases ht with ht | ht
-    · exact Or.inl ht
-    · subst ht; exact Or.inr (by simp)
+/-- a task whose phase is not `done` is neither leaked nor bailed -/
+theorem invL_fresh (cfg : Cfg) (s : St κ) (t : Task) (h : InvL cfg s) (hp : s.phase t ≠ .done) :
+    s.leaked t = false ∧ s.bailed t = none := by
+  constructor
+  · cases hl : s.leaked t with
+    | false => rfl
+    | true => exact absurd (h.leak t hl).2.1 hp
+  · cases hb : s.bailed t with
+    | none => rfl
+    | some r => exact absurd (h.bail t r hb).1 hp
 
-theorem invL_step (cfg : Cfg) (s : St κ) (op : Op κ) (hc : InvC cfg s) (h : InvL s) : InvL (step cfg s op) := by
-  have notdone : ∀ t, s.phase t ≠ .done → s.leaked t = true → False := fun t hp hl => hp (h t hl).1
+/-- a phase change of a not yet finished task to a not finished phase -/
+theorem invL_phase (cfg : Cfg) (s s' : St κ) (t : Task) (h : InvL cfg s) (hp : s.phase t ≠ .done)
+    (hp' : s'.phase t ≠ .done) (el : s'.leaked = s.leaked) (eb : s'.bailed = s.bailed)
+    (fo : ∀ x, x ≠ t → s'.phase x = s.phase x) (et : s'.touched = s.touched) (er : s'.result = s.result)
+    (eo : ∀ x, x ≠ t → s'.outcome x = s.outcome x) : InvL cfg s' := by
+  obtain ⟨f1, f2⟩ := invL_fresh cfg s t h hp
+  refine invL_update cfg s _ t h ?_ ?_ ?_ ?_
+  · intro x hx
+    exact ⟨by rw [el], fo x hx, fun e => by rw [et]; exact e, by rw [er], by rw [eb], eo x hx⟩
+  · intro hl; rw [el, f1] at hl; cases hl
+  · intro r hb; rw [eb, f2] at hb; cases hb
+  · intro hd; exact absurd hd hp'
+
+theorem invL_finish (cfg : Cfg) (s : St κ) (t : Task) (r : Res) (h : InvL cfg s) (hp : s.phase t = .finalizing)
+    (hr : (s.bailed t = none ∧ r = resultOf (s.outcome t)) ∨
+          (s.bailed t = some r ∧ (r = .cancelled ∨ (r = .error ∧ s.touched t = true ∧ cfg.snapshotIter = false)))) :
+    InvL cfg (finish s t r) := by
+  unfold finish
+  have hnd : s.phase t ≠ .done := by rw [hp]; simp
+  refine invL_update cfg s _ t h ?_ ?_ ?_ ?_
+  · intro x hx
+    exact ⟨rfl, upd_other _ _ _ _ hx, fun e => e, upd_other _ _ _ _ hx, rfl, rfl⟩
+  · intro hl
+    have := (h.leak t hl).2.1
+    exact absurd this hnd
+  · intro r' hb
+    rcases hr with ⟨e, _⟩ | ⟨e, hc⟩
+    · rw [e] at hb; cases hb
+    · rw [e] at hb; cases hb
+      exact ⟨by simp, by simp, hc⟩
+  · intro _ hb
+    rcases hr with ⟨_, e⟩ | ⟨e, _⟩
+    · simp [e]
+    · rw [e] at hb; cases hb
+
+theorem invL_bail (cfg : Cfg) (s : St κ) (t : Task) (r : Res) (h : InvL cfg s) (hp : s.phase t = .finalizing)
+    (hc : r = .cancelled ∨ (r = .error ∧ s.touched t = true ∧ cfg.snapshotIter = false)) :
+    InvL cfg (bail cfg s t r) := by
+  have hnd : s.phase t ≠ .done := by rw [hp]; simp
+  unfold bail
+  split
+  · unfold finish
+    refine invL_update cfg s _ t h ?_ ?_ ?_ ?_
+    · intro x hx
+      exact ⟨rfl, upd_other _ _ _ _ hx, fun e => e, upd_other _ _ _ _ hx, upd_other _ _ _ _ hx, rfl⟩
+    · intro hl; exact absurd (h.leak t hl).2.1 hnd
+    · intro r' hb
+      simp only [upd_same, Option.some.injEq] at hb
+      subst hb
+      exact ⟨by simp, by simp, hc⟩
+    · intro _ hb; simp at hb
+  · rename_i hca
+    unfold abort
+    refine invL_update cfg s _ t h ?_ ?_ ?_ ?_
+    · intro x hx
+      exact ⟨upd_other _ _ _ _ hx, upd_other _ _ _ _ hx, fun e => e, upd_other _ _ _ _ hx, upd_other _ _ _ _ hx, rfl⟩
+    · intro _; exact ⟨not_true_false hca, by simp, by simp⟩
+    · intro r' hb
+      simp only [upd_same, Option.some.injEq] at hb
+      subst hb
+      exact ⟨by simp, by simp, hc⟩
+    · intro _ hb; simp at hb
+
+/-- a resized live dict means somebody touched the callbacks of the finishing task -/
+theorem resized_touched (cfg : Cfg) (s : St κ) (t : Task) (hc : InvC cfg s) (hp : s.phase t = .finalizing)
+    (hr : resized cfg s t = true) : s.touched t = true ∧ cfg.snapshotIter = false := by
+  unfold resized at hr
+  simp only [Bool.and_eq_true, Bool.not_eq_true', bne_iff_ne, ne_eq] at hr
+  refine ⟨?_, hr.1⟩
+  cases ht : s.touched t with
+  | true => rfl
+  | false =>
+    obtain ⟨f1, f2⟩ := hc.fin t hp ht
+    exact absurd (by rw [f2, f1]) hr.2
+
+theorem invL_step (cfg : Cfg) (s : St κ) (op : Op κ) (hc : InvC cfg s) (h : InvL cfg s) :
+    InvL cfg (step cfg s op) := by
   cases op with
   | create t wc pre =>
     simp only [step, createStep]; split
     · exact h
     · rename_i hp
       have hp : s.phase t = .none := Classical.not_not.1 hp
-      refine invL_update s _ t h (fun x hx => ⟨rfl, upd_other _ _ _ _ hx, fun e => e, rfl⟩) ?_
-      intro hl; exact absurd hl (fun hl => notdone t (by rw [hp]; simp) hl)
+      exact invL_phase cfg s _ t h (by rw [hp]; simp) (by simp) rfl rfl (fun x hx => upd_other _ _ _ _ hx) rfl rfl
+        (fun _ _ => rfl)
   | start t =>
     simp only [step, startStep]; split
     · exact h
     · rename_i hp
       have hp : s.phase t = .created := Classical.not_not.1 hp
-      refine invL_update s _ t h (fun x hx => ⟨rfl, upd_other _ _ _ _ hx, fun e => e, rfl⟩) ?_
-      intro hl; exact absurd hl (fun hl => notdone t (by rw [hp]; simp) hl)
+      exact invL_phase cfg s _ t h (by rw [hp]; simp) (by simp) rfl rfl (fun x hx => upd_other _ _ _ _ hx) rfl rfl
+        (fun _ _ => rfl)
   | storeCtx t =>
     simp only [step, storeCtxStep]; split
-    · exact invL_congr s _ h rfl rfl (fun _ e => e) rfl
+    · exact invL_congr cfg s _ h rfl rfl (fun _ e => e) rfl rfl rfl
     · exact h
   | addCb a t c args =>
     simp only [step, addCbStep]; split
     · exact h
     · split
-      · exact invL_congr s _ h rfl rfl (fun _ e => e) rfl
-      · exact invL_congr s _ h rfl rfl (fun x e => noteTouch_mono s t x e) rfl
+      · exact invL_congr cfg s _ h rfl rfl (fun _ e => e) rfl rfl rfl
+      · exact invL_congr cfg s _ h rfl rfl (fun x e => noteTouch_mono s t x e) rfl rfl rfl
   | removeCb a t c =>
     simp only [step, removeCbStep]; split
     · exact h
     · split
-      · exact invL_congr s _ h rfl rfl (fun _ e => e) rfl
-      · exact invL_congr s _ h rfl rfl (fun x e => noteTouch_mono s t x e) rfl
+      · exact invL_congr cfg s _ h rfl rfl (fun _ e => e) rfl rfl rfl
+      · exact invL_congr cfg s _ h rfl rfl (fun x e => noteTouch_mono s t x e) rfl rfl rfl
   | cancel a tg =>
     simp only [step, cancelStep]; split
     · exact h
     · split
-      · exact invL_congr s _ h rfl rfl (fun _ e => e) rfl
-      · split <;> exact invL_congr s _ h rfl rfl (fun _ e => e) rfl
+      · exact invL_congr cfg s _ h rfl rfl (fun _ e => e) rfl rfl rfl
+      · split <;> exact invL_congr cfg s _ h rfl rfl (fun _ e => e) rfl rfl rfl
   | unique t k km =>
     simp only [step, uniqueStep]; split
-    · exact invL_congr s _ h rfl rfl (fun _ e => e) rfl
+    · exact invL_congr cfg s _ h rfl rfl (fun _ e => e) rfl rfl rfl
     · exact h
-  | reap => exact invL_congr s _ h rfl rfl (fun _ e => e) rfl
+  | reap => exact invL_congr cfg s _ h rfl rfl (fun _ e => e) rfl rfl rfl
   | endBody t oc =>
     simp only [step, endBodyStep]; split
     · exact h
     · rename_i hp
       have hp : s.phase t = .running := Classical.not_not.1 hp
-      refine invL_update s _ t h (fun x hx => ⟨rfl, upd_other _ _ _ _ hx, fun e => e, rfl⟩) ?_
-      intro hl; exact absurd hl (fun hl => notdone t (by rw [hp]; simp) hl)
+      exact invL_phase cfg s _ t h (by rw [hp]; simp) (by simp) rfl rfl (fun x hx => upd_other _ _ _ _ hx) rfl rfl
+        (fun x hx => upd_other _ _ _ _ hx)
   | cbBegin t =>
     simp only [step, cbBeginStep]; split
     · exact h
@@ -1096,34 +1239,27 @@ theorem invL_step (cfg : Cfg) (s : St κ) (op : Op κ) (hc : InvC cfg s) (h : In
       · exact h
       · split
         · exact h
-        · rename_i l hcb
-          split
-          · exact h
+        · split
+          · rename_i hsz
+            obtain ⟨a, b⟩ := resized_touched cfg s t hc hp hsz
+            exact invL_bail cfg s t _ h hp (Or.inr ⟨rfl, a, b⟩)
           · split
-            · rename_i hsz
-              apply invL_abort_touched s t _ h
-              left
-              cases ht : s.touched t with
-              | true => rfl
-              | false =>
-                obtain ⟨f1, f2⟩ := hc.fin t hp ht
-                have hl : l = s.atEnd t := by rw [← f1]; unfold cbList; rw [hcb]; rfl
-                exact absurd (by rw [f2, hl]) hsz
-            · split
-              · exact h
-              · exact invL_congr s _ h rfl rfl (fun _ e => e) rfl
+            · exact h
+            · exact invL_congr cfg s _ h rfl rfl (fun _ e => e) rfl rfl rfl
   | cbEnd t r =>
     simp only [step, cbEndStep]; split
     · exact h
-    · split
+    · rename_i hp
+      have hp : s.phase t = .finalizing := Classical.not_not.1 hp
+      split
       · exact h
       · cases r with
-        | ok => exact invL_congr s _ h rfl rfl (fun _ e => e) rfl
+        | ok => exact invL_congr cfg s _ h rfl rfl (fun _ e => e) rfl rfl rfl
         | raises =>
           simp only []
-          split <;> exact invL_congr s _ h rfl rfl (fun _ e => e) rfl
+          split <;> exact invL_congr cfg s _ h rfl rfl (fun _ e => e) rfl rfl rfl
         | cancelled =>
-          exact invL_abort_touched _ t _ (invL_congr s _ h rfl rfl (fun _ e => e) rfl) (Or.inr rfl)
+          exact invL_bail cfg _ t _ (invL_congr cfg s _ h rfl rfl (fun _ e => e) rfl rfl rfl) hp (Or.inl rfl)
   | cleanup t =>
     simp only [step, cleanupStep]; split
     · exact h
@@ -1135,31 +1271,20 @@ theorem invL_step (cfg : Cfg) (s : St κ) (op : Op κ) (hc : InvC cfg s) (h : In
         · exact h
         · split
           · rename_i hsz
-            apply invL_abort_touched s t _ h
-            left
-            cases ht : s.touched t with
-            | true => rfl
-            | false =>
-              obtain ⟨f1, f2⟩ := hc.fin t hp ht
-              unfold sizeChanged at hsz
-              cases hcb : s.cb t with
-              | none => rw [hcb] at hsz; simp at hsz
-              | some l =>
-                have hl : l = s.atEnd t := by rw [← f1]; unfold cbList; rw [hcb]; rfl
-                rw [hcb] at hsz
-                simp only [Bool.and_eq_true, bne_iff_ne, ne_eq] at hsz
-                exact absurd (by rw [f2, hl]) hsz.2
-          · refine invL_update s _ t h ?_ ?_
-            · intro x hx
-              exact ⟨rfl, upd_other _ _ _ _ hx, fun e => e, upd_other _ _ _ _ hx⟩
-            · intro hl; exact absurd hl (fun hl => notdone t (by rw [hp]; simp) hl)
+            unfold sizeChanged at hsz
+            simp only [Bool.and_eq_true] at hsz
+            obtain ⟨a, b⟩ := resized_touched cfg s t hc hp hsz.2
+            exact invL_bail cfg s t _ h hp (Or.inr ⟨rfl, a, b⟩)
+          · exact invL_finish cfg s t _ h hp
+              (Or.inl ⟨(invL_fresh cfg s t h (by rw [hp]; simp)).2, rfl⟩)
 
-theorem invL_run (cfg : Cfg) (ops : List (Op κ)) : InvL (run cfg ops) := by
-  have : ∀ (ops : List (Op κ)) (s : St κ), InvC cfg s → InvL s → InvL (ops.foldl (step cfg) s) := by
+theorem invL_run (cfg : Cfg) (ops : List (Op κ)) : InvL cfg (run cfg ops) := by
+  have : ∀ (ops : List (Op κ)) (s : St κ), InvC cfg s → InvL cfg s → InvL cfg (ops.foldl (step cfg) s) := by
     intro ops
     induction ops with
     | nil => intro s _ h; exact h
     | cons op ops ih => intro s hc h; exact ih _ (invC_step cfg s op hc) (invL_step cfg s op hc h)
-  exact this ops _ (invC_init cfg) (by intro t h; simp [init] at h)
+  exact this ops _ (invC_init cfg) ⟨by intro t h; simp [init] at h, by intro t r h; simp [init] at h,
+    by intro t h; simp [init] at h⟩
 
 end PsModel.C14
